@@ -312,7 +312,19 @@ func run(c *harness.Ctx, i int) {
 	midRunAtFeeder := false
 	var cancelInValidation int64
 	cancelAtJob := int64(0)
-	if !useCLI && rng.Intn(4) == 0 {
+	manySegments := false
+	for _, kd := range kindsUsed {
+		if kd == "shuffled" && len(idx.Chunks) >= 24 {
+			manySegments = true // every chunk of such a seed is a segment of its own: validation takes many jobs
+		}
+	}
+	if !useCLI && manySegments && rng.Intn(2) == 0 {
+		// the caller cancels while the seeds are validated, which takes a while here: the call has to return
+		cancelInValidation = int64(1 + rng.Intn(4))
+		cancelAtJob = int64(len(idx.Chunks) + 1)
+		hostile = "cancelled-in-validation"
+		ymode = dsu.YieldTraced
+	} else if !useCLI && rng.Intn(4) == 0 {
 		switch rng.Intn(5) {
 		case 4:
 			// the caller cancels while a worker holds its k-th job (often the last one): whatever is reported then,
